@@ -5,17 +5,7 @@
 //! select the batch that contains the first requested offset and an end that covers the last.
 use super::util::*;
 use crate::streaming::segments::{Index, Segment};
-use iggy::utils::expiry::IggyExpiry;
-use std::sync::atomic::AtomicU64;
 use std::sync::Arc;
-
-pub fn segment(start_offset: u64, cfg: Arc<crate::configs::system::SystemConfig>) -> Segment {
-    Segment::create(
-        1, 1, 1, start_offset, cfg, IggyExpiry::NeverExpire,
-        Arc::new(AtomicU64::new(0)), Arc::new(AtomicU64::new(0)), Arc::new(AtomicU64::new(0)),
-        Arc::new(AtomicU64::new(0)), Arc::new(AtomicU64::new(0)), Arc::new(AtomicU64::new(0)),
-    )
-}
 
 fn lower_bound(k: usize) {
     let seg = segment(0, Arc::new(system_config()));
